@@ -259,9 +259,9 @@ func (self *Fork) vdrKillSome(partial *PartialVdrKillReport, done bool) (*VDRKil
 			self.deletePartialKill()
 		}
 		if partial == nil {
-			return nil, false
+			return nil, done
 		} else {
-			return &partial.VDRKillReport, false
+			return &partial.VDRKillReport, done
 		}
 	}
 	if partial == nil {
